@@ -173,6 +173,7 @@ func init() {
 			return "[" + strings.Join(o, ", ") + "]"
 		}
 		fmt.Fprintf(w, "def getters : List String := %s\n", q(getters))
+		fmt.Fprintf(w, "def getterSharedWrites : List String := %s\n", q(c04SharedWrites()))
 		fmt.Fprintf(w, "def materialisingGetters : List String := %s\n", q(mat))
 		gcs := false
 		for _, m := range mat {
@@ -210,4 +211,121 @@ func init() {
 		fmt.Fprintf(w, "def searchMustCompile : Bool := %s\n", c04bool(mc))
 		fmt.Fprintf(w, "def searchTracksPositions : Bool := %s\n", c04bool(tp))
 	})
+}
+
+// c04SharedWrites lists, for every exported read function of *File, the assignments in its
+// body whose target is a field / element reached from something that is not a fresh local
+// object (named result, `var x T`, `x := T{...}`, `&T{...}`, make, new): "Getter:lhs".
+func c04SharedWrites() []string {
+	var out []string
+	for _, f := range files {
+		for _, d := range f.Decls {
+			fd, ok := d.(*ast.FuncDecl)
+			if !ok || fd.Recv == nil || len(fd.Recv.List) != 1 || fd.Body == nil {
+				continue
+			}
+			t := fd.Recv.List[0].Type
+			if s, ok := t.(*ast.StarExpr); ok {
+				t = s.X
+			}
+			if id, ok := t.(*ast.Ident); !ok || id.Name != "File" {
+				continue
+			}
+			n := fd.Name.Name
+			if !(strings.HasPrefix(n, "Get") || n == "Rows" || n == "Cols" || n == "SearchSheet") || !token.IsExported(n) {
+				continue
+			}
+			fresh := map[string]bool{}
+			if fd.Type.Results != nil {
+				for _, r := range fd.Type.Results.List {
+					for _, id := range r.Names {
+						fresh[id.Name] = true
+					}
+				}
+			}
+			isFresh := func(e ast.Expr) bool {
+				switch x := e.(type) {
+				case *ast.CompositeLit:
+					return true
+				case *ast.UnaryExpr:
+					_, ok := x.X.(*ast.CompositeLit)
+					return ok && x.Op == token.AND
+				case *ast.CallExpr:
+					if id, ok := x.Fun.(*ast.Ident); ok && (id.Name == "make" || id.Name == "new") {
+						return true
+					}
+				}
+				return false
+			}
+			ast.Inspect(fd.Body, func(x ast.Node) bool {
+				switch s := x.(type) {
+				case *ast.DeclStmt:
+					if gd, ok := s.Decl.(*ast.GenDecl); ok && gd.Tok == token.VAR {
+						for _, sp := range gd.Specs {
+							vs := sp.(*ast.ValueSpec)
+							if len(vs.Values) == 0 {
+								for _, id := range vs.Names {
+									fresh[id.Name] = true
+								}
+							}
+							for i, v := range vs.Values {
+								if i < len(vs.Names) && isFresh(v) {
+									fresh[vs.Names[i].Name] = true
+								}
+							}
+						}
+					}
+				case *ast.AssignStmt:
+					if s.Tok == token.DEFINE {
+						for i, l := range s.Lhs {
+							if id, ok := l.(*ast.Ident); ok && i < len(s.Rhs) && len(s.Lhs) == len(s.Rhs) && isFresh(s.Rhs[i]) {
+								fresh[id.Name] = true
+							}
+						}
+					}
+				}
+				return true
+			})
+			root := func(e ast.Expr) string {
+				for {
+					switch x := e.(type) {
+					case *ast.SelectorExpr:
+						e = x.X
+					case *ast.IndexExpr:
+						e = x.X
+					case *ast.StarExpr:
+						e = x.X
+					case *ast.ParenExpr:
+						e = x.X
+					case *ast.Ident:
+						return x.Name
+					default:
+						return "?"
+					}
+				}
+			}
+			note := func(l ast.Expr) {
+				if _, ok := l.(*ast.Ident); ok {
+					return
+				}
+				if fresh[root(l)] {
+					return
+				}
+				out = append(out, n+":"+c04norm(src(l)))
+			}
+			ast.Inspect(fd.Body, func(x ast.Node) bool {
+				switch s := x.(type) {
+				case *ast.AssignStmt:
+					for _, l := range s.Lhs {
+						note(l)
+					}
+				case *ast.IncDecStmt:
+					note(s.X)
+				}
+				return true
+			})
+		}
+	}
+	sort.Strings(out)
+	return out
 }
